@@ -699,7 +699,13 @@ where
 {
     use std::sync::atomic::Ordering::SeqCst;
     let path = tmp_path("leak");
-    std::fs::write(&path, bytes).unwrap();
+    // the marker `<dir>` stands for a path that can be opened and has a length, but cannot be read: a directory
+    let is_dir = bytes == b"<dir>";
+    if is_dir {
+        std::fs::create_dir_all(&path).unwrap();
+    } else {
+        std::fs::write(&path, bytes).unwrap();
+    }
     let run = |p: &std::path::Path| -> bool {
         match loader {
             "full" => T::load_full(p).is_ok(),
@@ -726,7 +732,7 @@ where
     }
     let h1 = crate::alloc::LIVE_BYTES.load(SeqCst);
     let m1 = count_maps();
-    let _ = std::fs::remove_file(&path);
+    let _ = if is_dir { std::fs::remove_dir(&path) } else { std::fs::remove_file(&path) };
     format!(
         "leak first={} oks={} panics={} heap={} maps={}",
         match first { Some(true) => "ok", Some(false) => "err", None => "panic" },
